@@ -685,6 +685,7 @@ pub fn replay_outer(path: &str, self_bin: &str) -> i32 {
         .arg("replay-inner")
         .arg(path)
         .env("ELFSIM_ABORT_FILE", &abort_file)
+        .env("RUST_BACKTRACE", "0")
         .spawn()
     {
         Ok(c) => c,
